@@ -8,6 +8,8 @@ mod apply;
 mod arena;
 #[path = "/repo/src/rapidquilt/cmd.rs"]
 mod cmd;
+#[path = "/repo/src/rapidquilt/verif.rs"]
+mod verif;
 
 mod rng;
 mod apply_engine;
@@ -49,6 +51,8 @@ fn main() {
         match engine {
             "push" => push_engine::run(&mut out, seed, n, &opts),
             "push-replay" => push_engine::replay(&mut out, &opts),
+            "pushfault" => push_engine::run_faults(&mut out, seed, n, &opts),
+            "pushfault-replay" => push_engine::replay_faults(&mut out, &opts),
             other => { eprintln!("unknown engine {}", other); std::process::exit(2); }
         }
         out.flush().unwrap();
